@@ -312,7 +312,7 @@ func c18Run(c lib.Case, env *lib.Env) lib.Result {
 		}
 	}
 	// signature of {other, S} computed by wharf from memory
-	cont := &tlc.Container{Files: []*tlc.File{{Path: "a-other.bin", Size: int64(len(other)), Mode: 0o644}, {Path: "b-signed.bin", Size: s.SSize, Mode: 0o644, Offset: int64(len(other))}}, Size: int64(len(other)) + s.SSize}
+	cont := &tlc.Container{Files: []*tlc.File{{Path: "Sub/Signed.BIN", Size: int64(len(other)), Mode: 0o644}, {Path: "sub/signed.bin", Size: s.SSize, Mode: 0o644, Offset: int64(len(other))}}, Size: int64(len(other)) + s.SSize}
 	hashes, err := pwr.ComputeSignature(context.Background(), cont, &lib.MemPool{Files: [][]byte{other, S}}, lib.Quiet())
 	if err != nil {
 		res.Inconclusive("sign: " + err.Error())
@@ -440,6 +440,7 @@ func c18Run(c lib.Case, env *lib.Env) lib.Result {
 		off0 += n
 	}
 	var firstErr error
+	completedAt := 0
 	errAt := -1
 	off := 0
 	for off < len(D) && w != nil {
@@ -456,6 +457,9 @@ func c18Run(c lib.Case, env *lib.Env) lib.Result {
 		}
 		_, werr := w.Write(D[off : off+n])
 		off += n
+		if completedAt == 0 && bstar >= 0 && off >= (bstar+1)*lib.BS {
+			completedAt = off // this call handed over the last byte of block b*
+		}
 		if werr != nil && firstErr == nil {
 			firstErr = werr
 			errAt = off
@@ -514,6 +518,8 @@ func c18Run(c lib.Case, env *lib.Env) lib.Result {
 			res.Add("lifetimes_with_bad_block", 1)
 			if firstErr == nil {
 				res.Violate("bad-block-not-reported", desc, "no Write/Close error although block b* differs from the signed block")
+			} else if s.Mode == "error-stop" && s.Via == "" && completedAt > 0 && errAt > completedAt {
+				res.Violate("completing-write-did-not-fail", desc, fmt.Sprintf("the Write that ended at offset %d completed block b*=%d but returned nil; the error came with the call ending at %d", completedAt, bstar, errAt))
 			}
 			limit := bstar * lib.BS
 			if len(got) > limit {
